@@ -1,28 +1,1460 @@
+// C26: test outcomes are parsed and summarised faithfully.
+// Implementation side of the correspondence + the model-independent property oracle.
+//
+// Streams
+//
+//	dispatch  byte prefixes through looksLikeJUnitXMLTestResults
+//	count     explicit core.TestSuite values through Tests/Passes/FlakyPasses/Failures/Errors/Skips/AllSucceeded
+//	add       TestSuite.Add on explicit suites
+//	parse     intended outcome sets rendered to JUnit XML / `go test -v` text, parsed by parseTestResultDatum
+//	flake     scenarios (flakiness, attempts with exit status and result files) through the real parseTestOutput,
+//	          TestSuite.Add, AllSucceeded and BuildTarget.AddTestResults, folded in the order doFlakeRun uses
+//	e2e       the same kind of scenario as gentest targets run by the real `plz test` (real doFlakeRun, summary lines)
 package main
 
 import (
+	"errors"
 	"fmt"
 	"os"
+	"os/exec"
+	"path/filepath"
+	"regexp"
+	"strconv"
+	"strings"
+
+	"verifharness/lib"
 
 	"github.com/thought-machine/please/src/core"
 	"github.com/thought-machine/please/src/test"
 )
 
-func show(s core.TestSuite, err error) {
-	fmt.Printf("  err=%v tests=%d P=%d F=%d E=%d S=%d Fl=%d all=%v\n", err, s.Tests(), s.Passes(), s.Failures(), s.Errors(), s.Skips(), s.FlakyPasses(), s.TestCases.AllSucceeded())
-	for _, c := range s.TestCases {
-		fmt.Printf("    %q %q:", c.ClassName, c.Name)
+// ------------------------------------------------------------------------------------------------
+// observed data
+
+type Exec struct{ F, E, S bool }
+type Case struct {
+	Class, Name string
+	Execs       []Exec
+}
+
+func fromCore(cs core.TestCases) []Case {
+	out := []Case{}
+	for _, c := range cs {
+		k := Case{Class: c.ClassName, Name: c.Name, Execs: []Exec{}}
 		for _, e := range c.Executions {
-			fmt.Printf(" [f=%v e=%v s=%v]", e.Failure != nil, e.Error != nil, e.Skip != nil)
+			k.Execs = append(k.Execs, Exec{e.Failure != nil, e.Error != nil, e.Skip != nil})
 		}
-		fmt.Println()
+		out = append(out, k)
+	}
+	return out
+}
+
+func toCoreExec(e Exec) core.TestExecution {
+	x := core.TestExecution{}
+	if e.F {
+		x.Failure = &core.TestResultFailure{Message: "f"}
+	}
+	if e.E {
+		x.Error = &core.TestResultFailure{Message: "e"}
+	}
+	if e.S {
+		x.Skip = &core.TestResultSkip{Message: "s"}
+	}
+	return x
+}
+
+func toCore(cs []Case) core.TestCases {
+	out := core.TestCases{}
+	for _, c := range cs {
+		k := core.TestCase{ClassName: c.Class, Name: c.Name}
+		for _, e := range c.Execs {
+			k.Executions = append(k.Executions, toCoreExec(e))
+		}
+		out = append(out, k)
+	}
+	return out
+}
+
+type counts [6]int // tests passes flaky failures errors skips
+
+func countsOf(s *core.TestSuite) counts {
+	return counts{s.Tests(), s.Passes(), s.FlakyPasses(), s.Failures(), s.Errors(), s.Skips()}
+}
+
+// ------------------------------------------------------------------------------------------------
+// Coq printers
+
+func coqExec(e Exec) string {
+	return lib.App("mkExec", lib.Bool(e.F), lib.Bool(e.E), lib.Bool(e.S))
+}
+func coqCase(c Case) string {
+	es := []string{}
+	for _, e := range c.Execs {
+		es = append(es, coqExec(e))
+	}
+	return lib.App("mkCase", lib.Str(c.Class), lib.Str(c.Name), lib.List(es))
+}
+func coqSuite(cs []Case) string {
+	out := []string{}
+	for _, c := range cs {
+		out = append(out, coqCase(c))
+	}
+	return lib.List(out)
+}
+func coqCounts(c counts) string {
+	out := []string{}
+	for _, x := range c {
+		out = append(out, strconv.Itoa(x))
+	}
+	return "[" + strings.Join(out, ";") + "]%N"
+}
+func coqXCase(x XCase) string {
+	return lib.App("mkX", lib.Str(x.Class), lib.Str(x.Name), lib.Bool(x.Fail), lib.Bool(x.Err), lib.Bool(x.Skip),
+		lib.Nat(x.FlakyF), lib.Nat(x.FlakyE), lib.Nat(x.RerunF), lib.Nat(x.RerunE))
+}
+func coqXSuite(x XSuite) string {
+	cs, ns := []string{}, []string{}
+	for _, c := range x.Cases {
+		cs = append(cs, coqXCase(c))
+	}
+	for _, n := range x.Nested {
+		ns = append(ns, coqXSuite(n))
+	}
+	return lib.App("XS", lib.List(cs), lib.List(ns))
+}
+func coqDatum(d Datum) string {
+	switch d.Kind {
+	case "xml":
+		tops := []string{}
+		for _, t := range d.Tops {
+			switch t.Kind {
+			case "suites":
+				ss := []string{}
+				for _, x := range t.Suites {
+					ss = append(ss, coqXSuite(x))
+				}
+				tops = append(tops, lib.App("XSuites", lib.List(ss)))
+			case "suite":
+				tops = append(tops, lib.App("XSuite", coqXSuite(t.Suites[0])))
+			default:
+				tops = append(tops, lib.App("XCase", coqXCase(*t.Case)))
+			}
+		}
+		return lib.App("DXml", lib.List(tops))
+	case "go":
+		ts := []string{}
+		for _, g := range d.Go {
+			r := map[string]string{"pass": "GPass", "fail": "GFail", "skip": "GSkip", "unknown": "GUnknown"}[g.Res]
+			ts = append(ts, lib.Pair(lib.Str(g.Name), r))
+		}
+		return lib.App("DGo", lib.List(ts))
+	}
+	return "DBad"
+}
+func coqAttempts(as []Attempt) string {
+	out := []string{}
+	for _, a := range as {
+		ds := []string{}
+		for _, d := range a.Data {
+			ds = append(ds, coqDatum(d))
+		}
+		out = append(out, lib.App("mkAttempt", lib.Bool(a.ExitNonzero), lib.List(ds)))
+	}
+	return lib.List(out)
+}
+
+// ------------------------------------------------------------------------------------------------
+// intended outcome sets
+
+type XCase struct {
+	Class, Name                    string
+	Fail, Err, Skip                bool // <failure>, <error>, <skipped> present
+	FlakyF, FlakyE, RerunF, RerunE int
+}
+type XSuite struct {
+	Name   string
+	Cases  []XCase
+	Nested []XSuite
+}
+type XTop struct {
+	Kind   string // suites | suite | case
+	Suites []XSuite
+	Case   *XCase `json:",omitempty"`
+}
+type GoCase struct {
+	Name string
+	Res  string // pass | fail | skip | unknown (=== RUN without a result line)
+}
+type Datum struct {
+	Kind  string // xml | go | bad
+	Tops  []XTop   `json:",omitempty"`
+	Go    []GoCase `json:",omitempty"`
+	Style int
+	Text  string // the rendered bytes
+}
+type Attempt struct {
+	ExitNonzero bool
+	Data        []Datum
+}
+type Scenario struct {
+	Name     string
+	NoOutput bool
+	Flaky    int
+	Attempts []Attempt
+	Domain   bool // inside the property's domain (the oracle applies)
+}
+
+// an intended case with the outcomes of its executions in one attempt
+type ICase struct {
+	Class, Name string
+	Outs        []string // pass fail error skip
+	nested      bool
+	bare        bool
+}
+
+func wellMarked(x XCase) bool {
+	n := 0
+	for _, b := range []bool{x.Fail, x.Err, x.Skip} {
+		if b {
+			n++
+		}
+	}
+	if n > 1 {
+		return false
+	}
+	pass := n == 0
+	if (x.FlakyF > 0 || x.FlakyE > 0) && !pass {
+		return false // flaky* elements document a case that finally passed
+	}
+	if (x.RerunF > 0 || x.RerunE > 0) && !(x.Fail || x.Err) {
+		return false // rerun* elements document a case that never passed
+	}
+	return true
+}
+
+func xOuts(x XCase) []string {
+	outs := []string{}
+	switch {
+	case x.Fail:
+		outs = append(outs, "fail")
+	case x.Err:
+		outs = append(outs, "error")
+	case x.Skip:
+		outs = append(outs, "skip")
+	default:
+		outs = append(outs, "pass")
+	}
+	for i := 0; i < x.FlakyF+x.RerunF; i++ {
+		outs = append(outs, "fail")
+	}
+	for i := 0; i < x.FlakyE+x.RerunE; i++ {
+		outs = append(outs, "error")
+	}
+	return outs
+}
+
+func suiteICases(x XSuite, nested bool, out *[]ICase) {
+	for _, c := range x.Cases {
+		*out = append(*out, ICase{Class: c.Class, Name: c.Name, Outs: xOuts(c), nested: nested})
+	}
+	for _, n := range x.Nested {
+		suiteICases(n, true, out)
 	}
 }
 
-func main() {
-	for _, f := range os.Args[1:] {
-		b, _ := os.ReadFile(f)
-		fmt.Println(f)
-		show(test.VerifC26ParseResults([][]byte{b}))
+// every test case written in the document, in document order
+func intended(d Datum) []ICase {
+	out := []ICase{}
+	switch d.Kind {
+	case "xml":
+		for _, t := range d.Tops {
+			if t.Kind == "case" {
+				out = append(out, ICase{Class: t.Case.Class, Name: t.Case.Name, Outs: xOuts(*t.Case), bare: true})
+			} else {
+				for _, x := range t.Suites {
+					suiteICases(x, false, &out)
+				}
+			}
+		}
+	case "go":
+		for _, g := range d.Go {
+			out = append(out, ICase{Name: g.Name, Outs: []string{g.Res}})
+		}
 	}
+	return out
+}
+
+func inDomain(d Datum) bool {
+	ok := true
+	var walk func(x XSuite)
+	walk = func(x XSuite) {
+		for _, c := range x.Cases {
+			ok = ok && wellMarked(c)
+		}
+		for _, n := range x.Nested {
+			walk(n)
+		}
+	}
+	switch d.Kind {
+	case "xml":
+		for _, t := range d.Tops {
+			if t.Kind == "case" {
+				ok = ok && wellMarked(*t.Case)
+			}
+			for _, x := range t.Suites {
+				walk(x)
+			}
+		}
+	case "go":
+		for _, g := range d.Go {
+			ok = ok && g.Res != "unknown"
+		}
+	default:
+		return false
+	}
+	return ok
+}
+
+func has(outs []string, o string) bool {
+	for _, x := range outs {
+		if x == o {
+			return true
+		}
+	}
+	return false
+}
+
+// the outcome category of a case from the outcomes of all its executions (the property's five kinds)
+func category(outs []string) string {
+	switch {
+	case has(outs, "pass"):
+		if has(outs, "fail") || has(outs, "error") || has(outs, "skip") {
+			return "flaky"
+		}
+		return "pass"
+	case has(outs, "skip"):
+		return "skip"
+	case has(outs, "error"):
+		return "error"
+	default:
+		return "fail"
+	}
+}
+
+func execOuts(es []Exec) ([]string, bool) {
+	outs := []string{}
+	for _, e := range es {
+		n := 0
+		for _, b := range []bool{e.F, e.E, e.S} {
+			if b {
+				n++
+			}
+		}
+		switch {
+		case n > 1:
+			return nil, false
+		case e.F:
+			outs = append(outs, "fail")
+		case e.E:
+			outs = append(outs, "error")
+		case e.S:
+			outs = append(outs, "skip")
+		default:
+			outs = append(outs, "pass")
+		}
+	}
+	return outs, len(es) > 0
+}
+
+func sameMultiset(a, b []string) bool {
+	if len(a) != len(b) {
+		return false
+	}
+	m := map[string]int{}
+	for _, x := range a {
+		m[x]++
+	}
+	for _, x := range b {
+		m[x]--
+	}
+	for _, v := range m {
+		if v != 0 {
+			return false
+		}
+	}
+	return true
+}
+
+// do the parsed cases equal the intended ones (names, class names, outcomes of the executions)?
+func sameCases(parsed []Case, want []ICase) bool {
+	if len(parsed) != len(want) {
+		return false
+	}
+	for i := range want {
+		outs, ok := execOuts(parsed[i].Execs)
+		if !ok || parsed[i].Class != want[i].Class || parsed[i].Name != want[i].Name || !sameMultiset(outs, want[i].Outs) {
+			return false
+		}
+	}
+	return true
+}
+
+// ------------------------------------------------------------------------------------------------
+// the summary the property demands for a scenario, and the same with known deviations switched on
+// (the latter is used ONLY to name the class of an input on which the plain specification already failed)
+
+type dev struct{ mergeKeys, synthetic, doubleCount bool }
+
+type ident struct {
+	class, name string
+	outs        []string
+}
+
+func attemptCases(a Attempt) []ICase {
+	out := []ICase{}
+	for _, d := range a.Data {
+		out = append(out, intended(d)...)
+	}
+	return out
+}
+
+func caseOK(outs []string) bool { return has(outs, "pass") || has(outs, "skip") }
+
+func summarise(sc Scenario, d dev) (counts, bool, []ident) {
+	ids := []*ident{}
+	index := map[string]*ident{}
+	for i := 0; i < sc.Flaky && i < len(sc.Attempts); i++ {
+		cs := attemptCases(sc.Attempts[i])
+		if d.synthetic {
+			nf := 0
+			for _, c := range cs {
+				if !caseOK(c.Outs) && !has(c.Outs, "error") && has(c.Outs, "fail") {
+					nf++
+				}
+			}
+			if sc.Attempts[i].ExitNonzero == (nf == 0) {
+				cs = append(cs, ICase{Name: sc.Name, Outs: []string{"error"}})
+			}
+		}
+		occ := map[string]int{}
+		allOK := true
+		for _, c := range cs {
+			allOK = allOK && caseOK(c.Outs)
+			key := c.Class + "\x00" + c.Name
+			if !d.mergeKeys {
+				occ[key]++
+				key += "\x00" + strconv.Itoa(occ[key])
+			}
+			id := index[key]
+			if id == nil {
+				id = &ident{class: c.Class, name: c.Name}
+				index[key] = id
+				ids = append(ids, id)
+			}
+			id.outs = append(id.outs, c.Outs...)
+		}
+		if allOK {
+			break
+		}
+	}
+	var n counts
+	passed := true
+	out := []ident{}
+	for _, id := range ids {
+		out = append(out, *id)
+		n[0]++
+		passed = passed && caseOK(id.outs)
+		if d.doubleCount {
+			p, f, e, s := has(id.outs, "pass"), has(id.outs, "fail"), has(id.outs, "error"), has(id.outs, "skip")
+			if !f && !e && !s {
+				n[1]++
+			}
+			if p && len(id.outs) > 1 {
+				n[2]++
+			}
+			if !p && !s && !e && f {
+				n[3]++
+			}
+			if !p && !s && e {
+				n[4]++
+			}
+			if s {
+				n[5]++
+			}
+			continue
+		}
+		switch category(id.outs) {
+		case "pass":
+			n[1]++
+		case "flaky":
+			n[2]++
+		case "fail":
+			n[3]++
+		case "error":
+			n[4]++
+		case "skip":
+			n[5]++
+		}
+	}
+	return n, passed, out
+}
+
+// judge compares what the implementation reported for a scenario with the property; on a failure it names the
+// narrowest known class whose (input-shape) precondition holds and whose predicted deviation is exactly what
+// was observed, else the catch-all class.
+func judge(c *lib.Ctx, where string, sc Scenario, got counts, passed bool) {
+	c.Oracle()
+	want, wantPass, _ := summarise(sc, dev{})
+	if got == want && passed == wantPass {
+		return
+	}
+	what := fmt.Sprintf("%s: target %s flaky=%d reported tests/passed/flakes/failed/errored/skipped=%v passing=%v, the outcome set written is %v passing=%v",
+		where, sc.Name, sc.Flaky, got, passed, want, wantPass)
+	classes := [3]string{"repeated-case-name-merged-as-retry", "exit-status-check-adds-synthetic-case", "retried-case-counted-twice"}
+	for mask := 1; mask < 8; mask++ {
+		d := dev{mask&1 != 0, mask&2 != 0, mask&4 != 0}
+		n, p, ids := summarise(sc, d)
+		if n != got || p != passed || !shapesPresent(sc, d, ids) {
+			continue
+		}
+		for i, cl := range classes {
+			if mask&(1<<i) != 0 {
+				c.Fail(cl, what, sc.js())
+			}
+		}
+		return
+	}
+	c.Fail("summary-mismatch", what, sc.js())
+}
+
+// the input-shape precondition of each known class
+func shapesPresent(sc Scenario, d dev, ids []ident) bool {
+	if d.mergeKeys {
+		dup := false
+		for i := 0; i < sc.Flaky && i < len(sc.Attempts); i++ {
+			seen := map[string]bool{}
+			for _, k := range attemptCases(sc.Attempts[i]) {
+				key := k.Class + "\x00" + k.Name
+				dup = dup || seen[key]
+				seen[key] = true
+			}
+		}
+		if !dup {
+			return false
+		}
+	}
+	if d.synthetic {
+		// an attempt whose exit status is non-zero although it reports no failed (only errored) case
+		syn := false
+		for i := 0; i < sc.Flaky && i < len(sc.Attempts); i++ {
+			nf := 0
+			for _, k := range attemptCases(sc.Attempts[i]) {
+				if !caseOK(k.Outs) && !has(k.Outs, "error") && has(k.Outs, "fail") {
+					nf++
+				}
+			}
+			syn = syn || (sc.Attempts[i].ExitNonzero && nf == 0)
+		}
+		if !syn {
+			return false
+		}
+	}
+	if d.doubleCount {
+		// a case that ran more than once, passed at least once and either never failed/errored or was also skipped
+		dc := false
+		for _, id := range ids {
+			if has(id.outs, "pass") && len(id.outs) > 1 && (has(id.outs, "skip") || (!has(id.outs, "fail") && !has(id.outs, "error"))) {
+				dc = true
+			}
+		}
+		if !dc {
+			return false
+		}
+	}
+	return true
+}
+
+func (sc Scenario) js() any {
+	return map[string]any{"name": sc.Name, "flaky": sc.Flaky, "no_output": sc.NoOutput, "attempts": sc.Attempts}
+}
+
+// ------------------------------------------------------------------------------------------------
+// renderers
+
+var namePool = []string{"a&b", "<init>", "x>y", `say "hi"`, "it's", "ünïcödé", "日本語テスト", "snow☃man", `mix&<>"'é`,
+	"plain_test", "Test With Space", "TestAlpha", "TestBeta", "test_gamma", "a]]>b", "&amp;", "&#38;lt;"}
+var classPool = []string{"", "pkg.Cls", "a&b.C<d>", `q"uo'te`, "Ünï.Cls"}
+
+func escAttr(s string, style int) string {
+	var b strings.Builder
+	for _, r := range s {
+		switch r {
+		case '&':
+			if style&1 != 0 {
+				b.WriteString("&#38;")
+			} else {
+				b.WriteString("&amp;")
+			}
+		case '<':
+			if style&1 != 0 {
+				b.WriteString("&#x3C;")
+			} else {
+				b.WriteString("&lt;")
+			}
+		case '>':
+			if style&2 != 0 {
+				b.WriteString(">")
+			} else {
+				b.WriteString("&gt;")
+			}
+		case '"':
+			b.WriteString("&quot;")
+		case '\'':
+			b.WriteString("&apos;")
+		default:
+			if r > 0x7f && style&4 != 0 {
+				fmt.Fprintf(&b, "&#x%X;", r)
+			} else {
+				b.WriteRune(r)
+			}
+		}
+	}
+	return b.String()
+}
+
+func attr(k, v string, style int) string {
+	q := `"`
+	if style&8 != 0 {
+		q = "'"
+	}
+	return " " + k + "=" + q + escAttr(v, style) + q
+}
+
+func text(s string, style int) string {
+	if style&16 != 0 && !strings.Contains(s, "]]>") {
+		return "<![CDATA[" + s + "]]>"
+	}
+	return escAttr(s, style&^2)
+}
+
+func renderXCase(b *strings.Builder, x XCase, style int, ind string) {
+	nl := "\n"
+	if style&32 != 0 {
+		nl, ind = "", ""
+	}
+	b.WriteString(ind + "<testcase" + attr("name", x.Name, style))
+	if x.Class != "" || style&64 != 0 {
+		b.WriteString(attr("classname", x.Class, style))
+	}
+	b.WriteString(attr("time", "0.012", style))
+	kids := []string{}
+	msg := `boom & <bang> "x"`
+	if x.Fail {
+		kids = append(kids, "<failure"+attr("type", "AssertionError", style)+attr("message", msg, style)+">"+text("trace <1> & 2", style)+"</failure>")
+	}
+	if x.Err {
+		kids = append(kids, "<error"+attr("type", "IOError", style)+">"+text("tb", style)+"</error>")
+	}
+	if x.Skip {
+		if style&128 != 0 {
+			kids = append(kids, "<skipped"+attr("message", "not today", style)+"></skipped>")
+		} else {
+			kids = append(kids, "<skipped"+attr("message", "not today", style)+"/>")
+		}
+	}
+	for i := 0; i < x.FlakyF; i++ {
+		kids = append(kids, "<flakyFailure"+attr("type", "T", style)+">"+text("f", style)+"<system-out>o</system-out></flakyFailure>")
+	}
+	for i := 0; i < x.FlakyE; i++ {
+		kids = append(kids, "<flakyError"+attr("type", "T", style)+">"+text("e", style)+"</flakyError>")
+	}
+	for i := 0; i < x.RerunF; i++ {
+		kids = append(kids, "<rerunFailure"+attr("type", "T", style)+attr("time", "0.5", style)+">"+text("f", style)+"</rerunFailure>")
+	}
+	for i := 0; i < x.RerunE; i++ {
+		kids = append(kids, "<rerunError"+attr("type", "T", style)+">"+text("e", style)+"</rerunError>")
+	}
+	if style&256 != 0 {
+		kids = append([]string{"<system-out>" + text("out <a> &", style) + "</system-out>"}, kids...)
+	}
+	if style&512 != 0 && len(kids) > 1 {
+		kids[0], kids[len(kids)-1] = kids[len(kids)-1], kids[0]
+	}
+	if len(kids) == 0 {
+		b.WriteString("/>" + nl)
+		return
+	}
+	b.WriteString(">" + nl)
+	for _, k := range kids {
+		b.WriteString(ind + "  " + k + nl)
+	}
+	b.WriteString(ind + "</testcase>" + nl)
+}
+
+func renderXSuite(b *strings.Builder, x XSuite, style int, ind string) {
+	nl := "\n"
+	if style&32 != 0 {
+		nl = ""
+	}
+	nf, ne, ns := 0, 0, 0
+	for _, c := range x.Cases {
+		if c.Fail {
+			nf++
+		}
+		if c.Err {
+			ne++
+		}
+		if c.Skip {
+			ns++
+		}
+	}
+	b.WriteString(ind + "<testsuite" + attr("name", x.Name, style) + attr("tests", strconv.Itoa(len(x.Cases)), style) +
+		attr("failures", strconv.Itoa(nf), style) + attr("errors", strconv.Itoa(ne), style) + attr("skipped", strconv.Itoa(ns), style) +
+		attr("time", "1.5", style) + ">" + nl)
+	if style&1024 != 0 {
+		b.WriteString(ind + "  <properties><property" + attr("name", "k&", style) + attr("value", "v<", style) + "/></properties>" + nl)
+	}
+	for _, c := range x.Cases {
+		renderXCase(b, c, style, ind+"  ")
+	}
+	for _, n := range x.Nested {
+		renderXSuite(b, n, style, ind+"  ")
+	}
+	b.WriteString(ind + "</testsuite>" + nl)
+}
+
+func renderXML(d Datum) string {
+	var b strings.Builder
+	style := d.Style
+	// a document written by a JUnit-style reporter starts with the declaration or with its root element
+	if style&2048 != 0 {
+		b.WriteString(`<?xml version="1.0" encoding="UTF-8"?>` + "\n")
+	}
+	for _, t := range d.Tops {
+		switch t.Kind {
+		case "suites":
+			b.WriteString("<testsuites" + attr("name", "all", style) + ">\n")
+			for _, x := range t.Suites {
+				renderXSuite(&b, x, style, "  ")
+			}
+			b.WriteString("</testsuites>\n")
+		case "suite":
+			renderXSuite(&b, t.Suites[0], style, "")
+		default:
+			renderXCase(&b, *t.Case, style, "")
+		}
+	}
+	return b.String()
+}
+
+func renderGo(d Datum) string {
+	var b strings.Builder
+	failed := false
+	// tests are listed in RUN order; a name containing '/' is a subtest, reported after its parent's result line
+	i := 0
+	for i < len(d.Go) {
+		g := d.Go[i]
+		j := i + 1
+		for j < len(d.Go) && strings.HasPrefix(d.Go[j].Name, g.Name+"/") {
+			j++
+		}
+		for k := i; k < j; k++ {
+			b.WriteString("=== RUN   " + d.Go[k].Name + "\n")
+			if d.Style&1 != 0 {
+				b.WriteString("    x_test.go:12: log <line> & more\n")
+			}
+		}
+		for k := i; k < j; k++ {
+			ind := ""
+			if k > i {
+				ind = "    "
+			}
+			switch d.Go[k].Res {
+			case "pass":
+				b.WriteString(ind + "--- PASS: " + d.Go[k].Name + " (0.00s)\n")
+			case "fail":
+				failed = true
+				if d.Style&2 != 0 {
+					b.WriteString(ind + "    x_test.go:20: expected 1, got 2\n")
+				}
+				b.WriteString(ind + "--- FAIL: " + d.Go[k].Name + " (0.01s)\n")
+			case "skip":
+				b.WriteString(ind + "--- SKIP: " + d.Go[k].Name + " (0.00s)\n")
+				if d.Style&4 != 0 {
+					b.WriteString(ind + "    x_test.go:9: skipping in short mode\n")
+				}
+			default:
+				failed = true
+			}
+		}
+		i = j
+	}
+	if failed {
+		b.WriteString("FAIL\n")
+	} else {
+		b.WriteString("PASS\n")
+	}
+	if d.Style&8 != 0 {
+		b.WriteString("coverage: 42.0% of statements\n")
+	}
+	return b.String()
+}
+
+func render(d *Datum) {
+	switch d.Kind {
+	case "xml":
+		d.Text = renderXML(*d)
+	case "go":
+		d.Text = renderGo(*d)
+	}
+}
+
+// ------------------------------------------------------------------------------------------------
+// generators
+
+func genXCase(r *lib.Rng, class, name, out string, adversarial bool) XCase {
+	x := XCase{Class: class, Name: name}
+	switch out {
+	case "fail":
+		x.Fail = true
+		if r.Chance(1, 6) {
+			x.RerunF = r.Range(1, 2)
+		}
+		if r.Chance(1, 12) {
+			x.RerunE = 1
+		}
+	case "error":
+		x.Err = true
+		if r.Chance(1, 6) {
+			x.RerunE = r.Range(1, 2)
+		}
+	case "skip":
+		x.Skip = true
+	case "flaky":
+		x.FlakyF = r.Range(0, 2)
+		x.FlakyE = r.Range(0, 1)
+		if x.FlakyF+x.FlakyE == 0 {
+			x.FlakyF = 1
+		}
+	}
+	if adversarial && r.Chance(1, 3) {
+		// contradictory markers: outside the property's domain, the model must still follow the code
+		switch r.Intn(4) {
+		case 0:
+			x.Fail, x.Skip = true, true
+		case 1:
+			x.Err, x.Skip = true, true
+		case 2:
+			x.Fail, x.Err = true, true
+		default:
+			x.Skip, x.FlakyF = true, 1
+		}
+	}
+	return x
+}
+
+var outcomes = []string{"pass", "pass", "pass", "fail", "error", "skip", "flaky"}
+
+func genSuite(r *lib.Rng, depth int, adversarial bool, dupOK bool) XSuite {
+	x := XSuite{Name: lib.Pick(r, namePool)}
+	n := r.Range(0, 4)
+	for i := 0; i < n; i++ {
+		c := genXCase(r, lib.Pick(r, classPool), lib.Pick(r, namePool), lib.Pick(r, outcomes), adversarial)
+		if dupOK && len(x.Cases) > 0 && r.Chance(1, 5) {
+			p := lib.Pick(r, x.Cases)
+			c.Class, c.Name = p.Class, p.Name
+		}
+		x.Cases = append(x.Cases, c)
+	}
+	if depth > 0 && r.Chance(1, 2) {
+		for i := r.Range(1, 2); i > 0; i-- {
+			x.Nested = append(x.Nested, genSuite(r, depth-1, adversarial, dupOK))
+		}
+	}
+	return x
+}
+
+// an XML document; shape: 0 plain (testsuites or one testsuite), 1 with nested suites, 2 bare testcases
+func genXMLDatum(r *lib.Rng, shape int, adversarial bool) Datum {
+	d := Datum{Kind: "xml", Style: r.Intn(4096)}
+	switch shape {
+	case 2:
+		for i := r.Range(1, 3); i > 0; i-- {
+			c := genXCase(r, lib.Pick(r, classPool), lib.Pick(r, namePool), lib.Pick(r, outcomes), adversarial)
+			d.Tops = append(d.Tops, XTop{Kind: "case", Case: &c})
+		}
+	default:
+		depth := 0
+		if shape == 1 {
+			depth = 2
+		}
+		if r.Bool() {
+			t := XTop{Kind: "suites"}
+			for i := r.Range(1, 3); i > 0; i-- {
+				t.Suites = append(t.Suites, genSuite(r, depth, adversarial, true))
+			}
+			d.Tops = append(d.Tops, t)
+		} else {
+			d.Tops = append(d.Tops, XTop{Kind: "suite", Suites: []XSuite{genSuite(r, depth, adversarial, true)}})
+		}
+	}
+	render(&d)
+	return d
+}
+
+func goName(s string) string { return strings.ReplaceAll(s, " ", "_") }
+
+func genGoDatum(r *lib.Rng, unknown bool) Datum {
+	d := Datum{Kind: "go", Style: r.Intn(16)}
+	n := r.Range(1, 5)
+	for i := 0; i < n; i++ {
+		name := "Test" + goName(lib.Pick(r, namePool))
+		if r.Chance(1, 5) && len(d.Go) > 0 {
+			name = d.Go[r.Intn(len(d.Go))].Name // repeated case (go test -count=2)
+			if strings.Contains(name, "/") {
+				name = name[:strings.Index(name, "/")]
+			}
+		}
+		res := lib.Pick(r, []string{"pass", "pass", "fail", "skip"})
+		if r.Chance(1, 4) {
+			// a test with subtests: the parent fails iff a subtest fails
+			subs := []GoCase{}
+			parent := "pass"
+			for k := r.Range(1, 3); k > 0; k-- {
+				sr := lib.Pick(r, []string{"pass", "pass", "fail", "skip"})
+				if sr == "fail" {
+					parent = "fail"
+				}
+				subs = append(subs, GoCase{Name: name + "/" + goName(lib.Pick(r, namePool)) + "#" + strconv.Itoa(k), Res: sr})
+			}
+			d.Go = append(d.Go, GoCase{Name: name, Res: parent})
+			d.Go = append(d.Go, subs...)
+			continue
+		}
+		d.Go = append(d.Go, GoCase{Name: name, Res: res})
+	}
+	if unknown && r.Chance(1, 2) {
+		d.Go = append(d.Go, GoCase{Name: "TestNeverFinished", Res: "unknown"})
+	}
+	render(&d)
+	return d
+}
+
+// a scenario inside the property's domain: the same cases in every attempt, outcomes drawn per attempt, exit
+// status non-zero exactly when some case of the attempt neither passed nor was skipped
+func genScenario(r *lib.Rng, name string, e2e bool) Scenario {
+	sc := Scenario{Name: name, Flaky: lib.Pick(r, []int{1, 1, 2, 2, 3}), Domain: true}
+	goFmt := r.Chance(1, 3)
+	type id struct{ class, name string }
+	ids := []id{}
+	n := r.Range(1, 5)
+	for i := 0; i < n; i++ {
+		k := id{lib.Pick(r, classPool), lib.Pick(r, namePool)}
+		if goFmt {
+			k = id{"", "Test" + goName(lib.Pick(r, namePool))}
+		}
+		if len(ids) > 0 && r.Chance(1, 8) {
+			k = lib.Pick(r, ids) // repeated case
+		}
+		ids = append(ids, k)
+	}
+	mode := r.Intn(4) // 0 mostly green, 1 one flaky case, 2 mixed, 3 errors only
+	for a := 0; a < sc.Flaky; a++ {
+		at := Attempt{}
+		var d Datum
+		if goFmt {
+			d = Datum{Kind: "go", Style: r.Intn(16)}
+		} else {
+			d = Datum{Kind: "xml", Style: r.Intn(4096)}
+		}
+		suite := XSuite{Name: lib.Pick(r, namePool)}
+		bad := false
+		for i, k := range ids {
+			out := "pass"
+			switch mode {
+			case 0:
+				if r.Chance(1, 10) {
+					out = lib.Pick(r, []string{"fail", "skip", "error"})
+				}
+			case 1:
+				if i == 0 && a+1 < sc.Flaky {
+					out = lib.Pick(r, []string{"fail", "error", "fail"})
+				} else if r.Chance(1, 8) {
+					out = "skip"
+				}
+			case 2:
+				out = lib.Pick(r, outcomes)
+				if a > 0 && r.Bool() {
+					out = "pass"
+				}
+			default:
+				if r.Chance(1, 2) && a+1 < max(sc.Flaky, 2) {
+					out = "error"
+				}
+			}
+			if goFmt {
+				if out == "error" || out == "flaky" {
+					out = "fail"
+				}
+				d.Go = append(d.Go, GoCase{Name: k.name, Res: out})
+				bad = bad || out == "fail"
+			} else {
+				suite.Cases = append(suite.Cases, genXCase(r, k.class, k.name, out, false))
+				bad = bad || out == "fail" || out == "error"
+			}
+		}
+		if !goFmt {
+			if r.Bool() {
+				d.Tops = []XTop{{Kind: "suites", Suites: []XSuite{suite}}}
+				if len(suite.Cases) > 1 && r.Chance(1, 3) {
+					h := len(suite.Cases) / 2
+					d.Tops[0].Suites = []XSuite{{Name: suite.Name, Cases: suite.Cases[:h]}, {Name: "second", Cases: suite.Cases[h:]}}
+				}
+			} else {
+				d.Tops = []XTop{{Kind: "suite", Suites: []XSuite{suite}}}
+			}
+		}
+		render(&d)
+		at.Data = []Datum{d}
+		at.ExitNonzero = bad
+		sc.Attempts = append(sc.Attempts, at)
+	}
+	return sc
+}
+
+// scenarios outside the domain (inconsistent exit status, missing or unparseable results, no_test_output
+// targets, several result files): correspondence only
+func genWildScenario(r *lib.Rng, name string) Scenario {
+	sc := genScenario(r, name, false)
+	sc.Domain = false
+	sc.NoOutput = r.Chance(1, 4)
+	for i := range sc.Attempts {
+		a := &sc.Attempts[i]
+		switch r.Intn(6) {
+		case 0:
+			a.ExitNonzero = !a.ExitNonzero
+		case 1:
+			a.Data = nil
+		case 2:
+			a.Data = append(a.Data, Datum{Kind: "bad", Text: ""})
+		case 3:
+			a.Data = append(a.Data, Datum{Kind: "bad", Text: "<testsuites><testsuite><testcase name=\"a\"></testsuite>"})
+		case 4:
+			a.Data = append(a.Data, genGoDatum(r, true))
+		case 5:
+			a.Data = append(a.Data, genXMLDatum(r, r.Intn(3), true))
+		}
+	}
+	return sc
+}
+
+// ------------------------------------------------------------------------------------------------
+// running the implementation
+
+func newTarget(name string, noOutput bool) *core.BuildTarget {
+	t := core.NewBuildTarget(core.NewBuildLabel("t", name))
+	t.Test = new(core.TestFields)
+	t.Test.NoOutput = noOutput
+	t.StartTestSuite()
+	return t
+}
+
+// the body of doFlakeRun with doTest replaced by the real parseTestOutput on the attempt's files, followed by
+// the real BuildTarget.AddTestResults
+func runInProcess(sc Scenario) *core.TestSuite {
+	target := newTarget(sc.Name, sc.NoOutput)
+	results := core.TestSuite{}
+	for flakes := 1; flakes <= sc.Flaky && flakes <= len(sc.Attempts); flakes++ {
+		a := sc.Attempts[flakes-1]
+		var runErr error
+		if a.ExitNonzero {
+			runErr = errors.New("exit status 1")
+		}
+		var data [][]byte
+		for _, d := range a.Data {
+			data = append(data, []byte(d.Text))
+		}
+		testSuite := test.VerifC26ParseOutput(runErr, target, data)
+		results.Add(testSuite.TestCases...)
+		if testSuite.TestCases.AllSucceeded() {
+			break
+		}
+	}
+	target.AddTestResults(results)
+	return target.Test.Results
+}
+
+var ansi = regexp.MustCompile("\x1b\\[[0-9;]*m")
+var summaryLine = regexp.MustCompile(`^//t:(\S+) (\d+) tests? run[^;]*; (\d+) passed(?:, (\d+) errored)?(?:, (\d+) failed)?(?:, (\d+) skipped)?(?:, (\d+) flakes?)?`)
+var failLine = regexp.MustCompile(`^Fail: //t:(\S+) `)
+
+type e2eResult struct {
+	n      counts
+	passed bool
+	seen   bool
+}
+
+func runE2E(c *lib.Ctx, plz string, scs []Scenario) (map[string]*e2eResult, error) {
+	root := filepath.Join(c.Out, "e2e-repo")
+	os.RemoveAll(root)
+	state := filepath.Join(root, "state")
+	if err := os.MkdirAll(filepath.Join(root, "t"), 0o755); err != nil {
+		return nil, err
+	}
+	os.MkdirAll(state, 0o755)
+	cfg := "[build]\npath = /usr/local/bin:/usr/bin:/bin\n[cache]\ndir = " + filepath.Join(root, "cache") + "\n[test]\ntimeout = 120\n"
+	os.WriteFile(filepath.Join(root, ".plzconfig"), []byte(cfg), 0o644)
+	var b strings.Builder
+	for _, sc := range scs {
+		for i, a := range sc.Attempts {
+			for j, d := range a.Data {
+				os.WriteFile(filepath.Join(root, "t", fmt.Sprintf("%s_%d_%d.res", sc.Name, i+1, j)), []byte(d.Text), 0o644)
+			}
+			code := "0"
+			if a.ExitNonzero {
+				code = "1"
+			}
+			os.WriteFile(filepath.Join(root, "t", fmt.Sprintf("%s_%d.exit", sc.Name, i+1)), []byte(code+"\n"), 0o644)
+		}
+		cnt := filepath.Join(state, sc.Name)
+		cmd := fmt.Sprintf(`n=$(cat %s 2>/dev/null || echo 0); n=$((n+1)); echo $n > %s; `, cnt, cnt) +
+			fmt.Sprintf(`if [ -e t/%s_${n}_1.res ]; then mkdir $RESULTS_FILE; cp t/%s_${n}_*.res $RESULTS_FILE/; `, sc.Name, sc.Name) +
+			fmt.Sprintf(`elif [ -e t/%s_${n}_0.res ]; then cp t/%s_${n}_0.res $RESULTS_FILE; fi; exit $(cat t/%s_${n}.exit)`, sc.Name, sc.Name, sc.Name)
+		fmt.Fprintf(&b, "gentest(\n    name = %q,\n    test_cmd = %q,\n    data = glob([%q]),\n    flaky = %d,\n    no_test_output = False,\n)\n",
+			sc.Name, cmd, sc.Name+"_*", sc.Flaky)
+	}
+	os.WriteFile(filepath.Join(root, "t", "BUILD"), []byte(b.String()), 0o644)
+	cmd := exec.Command("timeout", "300", plz, "test", "//t:all", "--plain_output", "--detailed", "--keep_going")
+	cmd.Dir = root
+	cmd.Env = append(os.Environ(), "HOME="+root)
+	out, _ := cmd.CombinedOutput()
+	res := map[string]*e2eResult{}
+	for _, sc := range scs {
+		res[sc.Name] = &e2eResult{passed: true}
+	}
+	atoi := func(s string) int { n, _ := strconv.Atoi(s); return n }
+	for _, line := range strings.Split(ansi.ReplaceAllString(string(out), ""), "\n") {
+		if m := failLine.FindStringSubmatch(line); m != nil && res[m[1]] != nil {
+			res[m[1]].passed = false
+		}
+		if m := summaryLine.FindStringSubmatch(line); m != nil && res[m[1]] != nil {
+			r := res[m[1]]
+			r.seen = true
+			r.n = counts{atoi(m[2]), atoi(m[3]), atoi(m[7]), atoi(m[5]), atoi(m[4]), atoi(m[6])}
+		}
+	}
+	for _, sc := range scs {
+		if !res[sc.Name].seen {
+			return res, fmt.Errorf("no summary line for //t:%s in the output of plz test:\n%s", sc.Name, tail(string(out), 3000))
+		}
+	}
+	os.RemoveAll(root)
+	return res, nil
+}
+
+func tail(s string, n int) string {
+	if len(s) > n {
+		return s[len(s)-n:]
+	}
+	return s
+}
+
+// ------------------------------------------------------------------------------------------------
+
+func main() {
+	lib.Main("C26", func(c *lib.Ctx) {
+		c.Model("From PlzV Require Import Model.C26.", "C26.case", "C26.check")
+		c.Rule("outcome sets (1-5 cases per suite; names and class names with & < > \" ' ]]> entity look-alikes and non-ASCII text; " +
+			"testsuites/testsuite/nested testsuite/bare testcase documents; repeated names; pass/fail/error/skip and flaky/rerun elements) " +
+			"rendered in 4096 XML styles and 16 `go test -v` styles and parsed by the real parseTestResultDatum; scenarios (flakiness 1-3, " +
+			"per-attempt outcomes and exit status) through the real parseTestOutput + TestSuite.Add + AllSucceeded + AddTestResults and, " +
+			"for a subset, as gentest targets through the real `plz test`; explicit suites through the counters (all single cases with <= 3 " +
+			"executions exhaustively) and Add. distinct = distinct inputs; non-trivial = at least two cases or two executions, not all passing")
+
+		// --- 1. dispatch
+		fixed := []string{"", "<", "<?xml", "<?xm", "<test", "<tes", "<testsuites>", "<testcase", "<test name=", " <?xml", "\n<testsuite>",
+			"\xef\xbb\xbf<?xml", "<!-- c --><testsuite>", "=== RUN   TestA", "<?XML", "<Test", "PASS", "<t", "<?xml version", "<testsuite"}
+		for i := 0; i < c.Scale(60, 600); i++ {
+			b := []byte{}
+			if i < len(fixed) {
+				b = []byte(fixed[i])
+			} else {
+				r := c.Rng.Fork()
+				base := []byte(lib.Pick(r, fixed))
+				b = append(b, base...)
+				if len(b) > 0 && r.Bool() {
+					b[r.Intn(len(b))] = byte(r.Intn(256))
+				}
+				if r.Chance(1, 3) {
+					b = b[:r.Intn(len(b)+1)]
+				}
+			}
+			got := test.VerifC26LooksLikeJUnit(b)
+			c.Case(lib.App("CDispatch", lib.Str(string(b)), lib.Bool(got)), map[string]any{"dispatch": string(b), "xml": got}, "d"+string(b), len(b) > 0)
+		}
+
+		// --- 2. counters on explicit suites
+		kinds := []Exec{{}, {F: true}, {E: true}, {S: true}}
+		countCase := func(cs []Case, domain bool, key string) {
+			s := &core.TestSuite{TestCases: toCore(cs)}
+			n, ok := countsOf(s), s.TestCases.AllSucceeded()
+			js := map[string]any{"suite": cs, "counts": n, "all_succeeded": ok}
+			c.Case(lib.App("CCount", coqSuite(cs), coqCounts(n), lib.Bool(ok)), js, key, len(cs) > 0)
+			if !domain {
+				return
+			}
+			// oracle: the five outcome kinds partition the cases, each counter counts its kind, and the suite
+			// succeeds exactly when no case is failed or errored
+			c.Oracle()
+			var want counts
+			wantOK := true
+			double := false
+			for _, k := range cs {
+				outs, _ := execOuts(k.Execs)
+				want[0]++
+				wantOK = wantOK && caseOK(outs)
+				switch category(outs) {
+				case "pass":
+					want[1]++
+					double = double || len(outs) > 1
+				case "flaky":
+					want[2]++
+					double = double || has(outs, "skip")
+				case "fail":
+					want[3]++
+				case "error":
+					want[4]++
+				case "skip":
+					want[5]++
+				}
+			}
+			if n != want || ok != wantOK {
+				what := fmt.Sprintf("counters tests/passed/flakes/failed/errored/skipped=%v all_succeeded=%v, outcome kinds of the cases give %v %v", n, ok, want, wantOK)
+				// predicted deviation of the known class: only flakes / skipped over-count, by the number of such cases
+				var pred counts = want
+				for _, k := range cs {
+					outs, _ := execOuts(k.Execs)
+					if category(outs) == "pass" && len(outs) > 1 {
+						pred[2]++ // passed every time, still counted as a flake
+					} else if category(outs) == "flaky" && has(outs, "skip") {
+						pred[5]++ // passed on a retry, still counted as skipped
+					}
+				}
+				if double && n == pred && ok == wantOK {
+					c.Fail("retried-case-counted-twice", what, js)
+				} else {
+					c.Fail("counter-mismatch", what, js)
+				}
+			}
+		}
+		var enum func(prefix []Exec, depth int)
+		enum = func(prefix []Exec, depth int) {
+			if len(prefix) > 0 {
+				countCase([]Case{{Class: "c", Name: "n", Execs: append([]Exec{}, prefix...)}}, true, fmt.Sprint("c1", prefix))
+			}
+			if depth == 0 {
+				return
+			}
+			for _, k := range kinds {
+				enum(append(prefix, k), depth-1)
+			}
+		}
+		enum(nil, 3)
+		c.Note("counters: every single case with 1-3 executions over pass/fail/error/skip enumerated (84 cases)")
+		for i := 0; i < c.Scale(250, 4000); i++ {
+			r := c.Rng.Fork()
+			cs := []Case{}
+			domain := true
+			for k := r.Range(0, 5); k > 0; k-- {
+				k := Case{Class: lib.Pick(r, classPool), Name: lib.Pick(r, namePool), Execs: []Exec{}}
+				ne := r.Range(1, 4)
+				if r.Chance(1, 12) {
+					ne, domain = 0, false
+				}
+				for j := 0; j < ne; j++ {
+					if r.Chance(1, 10) {
+						k.Execs = append(k.Execs, Exec{r.Bool(), r.Bool(), r.Bool()})
+					} else {
+						k.Execs = append(k.Execs, lib.Pick(r, append(kinds, Exec{})))
+					}
+				}
+				if _, ok := execOuts(k.Execs); !ok {
+					domain = false
+				}
+				cs = append(cs, k)
+			}
+			countCase(cs, domain, fmt.Sprint("c", cs))
+			c.HistN("count_suite_cases", len(cs))
+		}
+
+		// --- 3. Add
+		for i := 0; i < c.Scale(200, 3000); i++ {
+			r := c.Rng.Fork()
+			names := []string{lib.Pick(r, namePool), lib.Pick(r, namePool), lib.Pick(r, namePool)}
+			classes := []string{lib.Pick(r, classPool), lib.Pick(r, classPool)}
+			mk := func(n int) []Case {
+				out := []Case{}
+				for ; n > 0; n-- {
+					k := Case{Class: lib.Pick(r, classes), Name: lib.Pick(r, names), Execs: []Exec{}}
+					for j := r.Range(0, 2); j > 0; j-- {
+						k.Execs = append(k.Execs, lib.Pick(r, kinds))
+					}
+					out = append(out, k)
+				}
+				return out
+			}
+			a, cs := mk(r.Range(0, 4)), mk(r.Range(0, 4))
+			s := core.TestSuite{TestCases: toCore(a)}
+			s.Add(toCore(cs)...)
+			got := fromCore(s.TestCases)
+			js := map[string]any{"suite": a, "add": cs, "result": got}
+			c.Case(lib.App("CAdd", coqSuite(a), coqSuite(cs), coqSuite(got)), js, fmt.Sprint("a", a, cs), len(a) > 0 && len(cs) > 0)
+			// oracle: Add keeps, for every (class, name), exactly the executions recorded under that key
+			c.Oracle()
+			per := func(l []Case) map[string][4]int {
+				m := map[string][4]int{}
+				for _, k := range l {
+					v := m[k.Class+"\x00"+k.Name]
+					for _, e := range k.Execs {
+						switch {
+						case e.F:
+							v[1]++
+						case e.E:
+							v[2]++
+						case e.S:
+							v[3]++
+						default:
+							v[0]++
+						}
+					}
+					m[k.Class+"\x00"+k.Name] = v
+				}
+				return m
+			}
+			w, g := per(append(append([]Case{}, a...), cs...)), per(got)
+			if fmt.Sprint(w) != fmt.Sprint(g) {
+				c.Fail("add-loses-executions", fmt.Sprintf("Add(%v, %v) = %v does not keep the executions per (class, name)", a, cs, got), js)
+			}
+		}
+
+		// --- 4. parse: rendered documents through parseTestResultDatum
+		parseCase := func(d Datum, key string) {
+			s, err := test.VerifC26ParseDatum([]byte(d.Text))
+			got := fromCore(s.TestCases)
+			obs := "None"
+			if err == nil {
+				obs = lib.Some(coqSuite(got))
+			}
+			js := map[string]any{"datum": d, "parsed": got, "error": fmt.Sprint(err)}
+			want := intended(d)
+			c.Case(lib.App("CParse", coqDatum(d), obs), js, key, len(want) > 1)
+			c.Hist("parse_format", d.Kind)
+			if !inDomain(d) {
+				return
+			}
+			c.Oracle()
+			if err == nil && sameCases(got, want) {
+				// the same cases: then the counters must give the same outcome counts
+				sc := Scenario{Name: "-", Flaky: 1, Attempts: []Attempt{{Data: []Datum{d}}}}
+				n, _, _ := summarise(sc, dev{})
+				if cn := countsOf(&s); cn != n {
+					c.Fail("counter-mismatch", fmt.Sprintf("parsed cases equal the written ones but counters are %v, outcome kinds give %v", cn, n), js)
+				}
+				return
+			}
+			what := fmt.Sprintf("%s document with %d cases parsed as %d cases (err=%v): %v", d.Kind, len(want), len(got), err, got)
+			// known deviations by input shape: nested <testsuite> elements, bare <testcase> elements
+			hasNested, hasBare := false, false
+			pred := []ICase{}
+			for _, k := range want {
+				hasNested = hasNested || k.nested
+				hasBare = hasBare || k.bare
+				if k.nested {
+					continue
+				}
+				if k.bare {
+					k.Class, k.Name = "", ""
+				}
+				pred = append(pred, k)
+			}
+			if err == nil && (hasNested || hasBare) && sameCases(got, pred) {
+				if hasNested {
+					c.Fail("nested-testsuite-cases-dropped", what, js)
+				}
+				if hasBare {
+					c.Fail("bare-testcase-name-dropped", what, js)
+				}
+				return
+			}
+			c.Fail("parse-mismatch", what, js)
+		}
+		for i := 0; i < c.Scale(260, 5000); i++ {
+			r := c.Rng.Fork()
+			shape := lib.Pick(r, []int{0, 0, 0, 0, 1, 2})
+			d := genXMLDatum(r, shape, r.Chance(1, 5))
+			c.HistN("xml_shape", shape)
+			parseCase(d, "x"+d.Text)
+		}
+		for i := 0; i < c.Scale(160, 3000); i++ {
+			r := c.Rng.Fork()
+			parseCase(genGoDatum(r, r.Chance(1, 6)), "g"+fmt.Sprint(i))
+		}
+		parseCase(Datum{Kind: "bad", Text: ""}, "bad-empty")
+		parseCase(Datum{Kind: "bad", Text: "<testsuites><testsuite><testcase name=\"a\"></testsuite>"}, "bad-xml")
+		parseCase(Datum{Kind: "go", Text: "no test output at all\n"}, "go-empty")
+
+		// --- 5. scenarios in process
+		flakeCase := func(sc Scenario) {
+			res := runInProcess(sc)
+			got, n, ok := fromCore(res.TestCases), countsOf(res), res.TestCases.AllSucceeded()
+			js := map[string]any{"scenario": sc.js(), "result": got, "counts": n, "passed": ok}
+			nontrivial := len(got) > 1 && !(n[1] == n[0])
+			c.Case(lib.App("CFlake", lib.Str(sc.Name), lib.Bool(sc.NoOutput), lib.Nat(sc.Flaky), coqAttempts(sc.Attempts), coqSuite(got), coqCounts(n), lib.Bool(ok)),
+				js, fmt.Sprint("f", js), nontrivial)
+			c.HistN("flakiness", sc.Flaky)
+			if sc.Domain {
+				judge(c, "in-process", sc, n, ok)
+			}
+		}
+		for i := 0; i < c.Scale(300, 6000); i++ {
+			r := c.Rng.Fork()
+			if r.Chance(1, 4) {
+				flakeCase(genWildScenario(r, "wild"+strconv.Itoa(i)))
+			} else {
+				flakeCase(genScenario(r, "sc"+strconv.Itoa(i), false))
+			}
+		}
+
+		// --- 6. the same through the real binary
+		if plz := os.Getenv("VERIF_PLZ"); plz != "" {
+			scs := []Scenario{}
+			for i := 0; i < c.Scale(40, 400); i++ {
+				r := c.Rng.Fork()
+				if i%5 == 4 {
+					sc := genWildScenario(r, "w"+strconv.Itoa(i))
+					sc.NoOutput = false
+					scs = append(scs, sc)
+				} else {
+					scs = append(scs, genScenario(r, "e"+strconv.Itoa(i), true))
+				}
+			}
+			res, err := runE2E(c, plz, scs)
+			if err != nil {
+				panic(err)
+			}
+			for _, sc := range scs {
+				r := res[sc.Name]
+				js := map[string]any{"scenario": sc.js(), "counts": r.n, "passed": r.passed, "via": "plz test"}
+				c.Case(lib.App("CE2E", lib.Str(sc.Name), lib.Nat(sc.Flaky), coqAttempts(sc.Attempts), coqCounts(r.n), lib.Bool(r.passed)),
+					js, fmt.Sprint("e", js), r.n[0] > 1 && r.n[1] != r.n[0])
+				c.Hist("e2e", "targets")
+				if sc.Domain {
+					judge(c, "plz test", sc, r.n, r.passed)
+				}
+			}
+			c.Note("e2e: %d gentest targets run by one `plz test //t:all --detailed` invocation of the binary built from the repository", len(scs))
+		} else {
+			c.Note("e2e: VERIF_PLZ not set, skipped")
+		}
+	})
 }
